@@ -8,6 +8,7 @@ import (
 	"fmt"
 	"go/ast"
 	"go/build"
+	"go/format"
 	"go/parser"
 	"go/token"
 	"os"
@@ -315,8 +316,8 @@ func c16Worker(args []string) int {
 		// ... and with Restorer.Extras on a file whose scope still knows declarations that were removed from
 		// the tree (objects are kept in maps): the same bytes every time, and the same as without Extras
 		{
-			esrc := "package p\n\n// Alpha doc\nfunc Alpha() {} // alpha trail\n\n// Beta doc\nfunc Beta() {} // beta trail\n\n// Gamma doc\nfunc Gamma() {} // gamma trail\n\nfunc Keep() { Alpha(); Beta(); Gamma() }\n"
-			first := ""
+			esrc := "package p\n\n// Alpha doc\nfunc Alpha(a int) int { b := a; return b } // alpha trail\n\n// Beta doc\nfunc Beta(c, d int) int { return c + d } // beta trail\n\n// Gamma doc\nfunc Gamma() {} // gamma trail\n\nfunc Keep() { Alpha(1); Beta(2, 3); Gamma() }\n"
+			first, firstGraph := "", ""
 			for k := 0; k < 40; k++ {
 				f, err := decorator.Parse(esrc)
 				if err != nil {
@@ -330,8 +331,21 @@ func c16Worker(args []string) int {
 				}
 				r := decorator.NewRestorer()
 				r.Extras = true
-				if err := r.Fprint(&ex, f); err != nil {
+				af, err := r.RestoreFile(f)
+				if err != nil {
 					fmt.Println("DIFF repeat-extras: error", err)
+					break
+				}
+				if err := format.Node(&ex, r.Fset, af); err != nil {
+					fmt.Println("DIFF repeat-extras: error", err)
+					break
+				}
+				// equal trees: the object graph reachable from the file (through the removed declarations too)
+				g := strings.Join(reachCanonAst(af), " | ")
+				if firstGraph == "" {
+					firstGraph = g
+				} else if g != firstGraph {
+					fmt.Printf("DIFF repeat-extras %d: the restored object graph differs between identical calls: %s vs %s\n", k, firstGraph, g)
 					break
 				}
 				if first == "" {
@@ -713,6 +727,10 @@ func checkC16(c *Ctx) {
 		c.Infra(fmt.Sprintf("trace worker failed (exit %d): %v %s", code, err, truncate(se, 400)))
 		return
 	}
+	if strings.Contains(se, "DATA RACE") {
+		rep := se[strings.Index(se, "WARNING: DATA RACE"):]
+		c.Fail(Finding{Sig: "data-race", Input: "trace-rounds", What: "race detector: " + truncate(rep, 1500), Replay: obj{"kind": "c16", "mode": "trace"}})
+	}
 	res, err := RunTLC(TLCRun{Module: "ConcurrencyTrace", Cfg: concTraceCfg, Workers: 1, Timeout: 10 * time.Minute, Files: map[string][]byte{"trace.ndjson": []byte(so)}})
 	if err != nil || res.TimedOut || (res.ExitCode != 0 && res.Violated == "" && !res.Postcond) {
 		c.Infra("TLC (ConcurrencyTrace) did not run: " + errText(res, err))
@@ -727,8 +745,14 @@ func checkC16(c *Ctx) {
 		if i >= 0 && i < len(lines) {
 			ev = lines[i]
 		}
-		sig := "lock-protocol-violated"
-		c.Fail(Finding{Sig: sig, Input: ev, What: "recorded resolver steps are not a behaviour of Concurrency.tla: " + rejectText(res) + " " + ev, Replay: obj{"kind": "c16", "mode": "trace"}})
+		// The trace specification transcribes the present locking scheme (one resolver-wide mutex).
+		// A resolver that synchronises differently (finer locks, lock-free reads) keeps the property
+		// as long as the race detector stays silent and the results equal the solo results - both
+		// judged above on the real code. A rejected trace is therefore a conformance deviation
+		// (I-layer), recorded and not reported as a violation.
+		c.Set("model_conformance", false)
+		c.Set("lock_protocol_not_followed", truncate(rejectText(res)+" "+ev, 300))
+		c.Note("recorded resolver steps are not a behaviour of Concurrency.tla (the resolver synchronises differently from the model): " + rejectText(res) + " " + ev)
 	}
 	c.Set("rule", "case = one free-running stress configuration under the race detector, or one TLC-generated schedule forced on the real resolver through the gate hooks; all non-trivial; distinct by schedule")
 }
